@@ -3,6 +3,7 @@ package main
 import (
 	"fmt"
 	"go/ast"
+	"go/constant"
 	"go/token"
 	"go/types"
 	"sort"
@@ -25,6 +26,9 @@ func checkC20(c *Ctx) {
 	c.Rule("C20.zero", "DEGENERATE (L4): no multiplication, exponentiation, division or inversion takes as operand a local field element that was never assigned (definitely zero) — e.g. g.Exp(g, k) on a fresh g", 7)
 	c.Rule("C20.clone", "CLONE: Clone/ShallowClone define every field of the result (whole-struct copy or one store per field): the clone denotes the same polynomial (shift, size, coset, form, coefficients)", 14)
 	c.Rule("C20.index", "INDEX: GetCoeff indexes the coefficient vector with a position reduced into [0, n) (x % n corrected by +n when negative), so that every integer shift is accepted", 7)
+	c.Rule("C20.grow", "GROW: polynomial.grow, which every conversion calls to extend the coefficient vector to the size of the domain, looks at the layout before appending zero coefficients (appending is value-preserving in regular layout only)", 7)
+	c.Rule("C20.coset", "COSET: every function of the package that can produce a polynomial in LagrangeCoset form (it stores a non-constant basis, or builds a Polynomial from a form it received as parameter) also sets the coset field, which Evaluate divides by", 14)
+	c.Rule("C20.domainpoint", "DOMAIN-POINT: in the Lagrange-form evaluation the denominators x - w^i handed to BatchInvert are all known to be non-zero (a zero one is treated before: the value at a point of the domain is the entry itself; 0/0 in the barycentric formula gave 0)", 7)
 	c.Rule("C20.alias", "ALIAS: the deep Clone shares no coefficient storage with its source (its coefficient vector comes from a fresh allocation)", 7)
 
 	for _, pk := range p.FamilyPkgs("ecc/*/fr/iop") {
@@ -68,6 +72,119 @@ func checkC20(c *Ctx) {
 			c.Instance("C20.index", 1)
 			ok, msg := indexesNormalised(fn)
 			c.Ob("C20.index", pk, funcKey(fn), "position-normalised", p.Pos(fn.Pos()), ok, funcKey(fn)+": "+msg)
+		}
+		// ---- resizing is layout-aware
+		if fn := p.Func(pk, "polynomial", "grow"); fn != nil {
+			c.Instance("C20.grow", 1)
+			layoutRead := false
+			for _, b := range fn.Blocks {
+				for _, in := range b.Instrs {
+					if fa, ok := in.(*ssa.FieldAddr); ok && fieldName(fa.X.Type(), fa.Field) == "Layout" {
+						layoutRead = true
+					}
+				}
+			}
+			c.Ob("C20.grow", pk, funcKey(fn), "append-is-layout-aware", p.Pos(fn.Pos()), layoutRead, funcKey(fn)+": zero coefficients are appended without looking at the layout: in bit-reversed layout every slot denotes another monomial once the length changes")
+		} else {
+			c.Undecided("anchor %s.polynomial.grow not found", pk)
+		}
+		// ---- every producer of a LagrangeCoset polynomial records the shift of the coset
+		cosetSetters := map[*ssa.Function]bool{} // functions that write the coset field themselves
+		for _, fn := range libFuncs(p, pk) {
+			for _, b := range fn.Blocks {
+				for _, in := range b.Instrs {
+					switch x := in.(type) {
+					case *ssa.Store:
+						if fa, ok := x.Addr.(*ssa.FieldAddr); ok && fieldName(fa.X.Type(), fa.Field) == "coset" {
+							cosetSetters[fn] = true
+						}
+					case *ssa.Call:
+						if calleeOf(&x.Call).Name == "Set" && len(x.Call.Args) == 2 {
+							if fa, ok := x.Call.Args[0].(*ssa.FieldAddr); ok && fieldName(fa.X.Type(), fa.Field) == "coset" {
+								cosetSetters[fn] = true
+							}
+						}
+					}
+				}
+			}
+		}
+		for _, fn := range libFuncs(p, pk) {
+			if fn.Parent() != nil {
+				continue
+			}
+			makes, setsCoset := false, cosetSetters[fn]
+			for _, b := range fn.Blocks {
+				for _, in := range b.Instrs {
+					if call, ok := in.(*ssa.Call); ok {
+						if f := call.Call.StaticCallee(); f != nil && cosetSetters[f] {
+							setsCoset = true // delegated to a helper of the package
+						}
+					}
+				}
+			}
+			for _, b := range fn.Blocks {
+				for _, in := range b.Instrs {
+					switch x := in.(type) {
+					case *ssa.Store:
+						if fa, ok := x.Addr.(*ssa.FieldAddr); ok {
+							switch fieldName(fa.X.Type(), fa.Field) {
+							case "Basis":
+								// filling a local Form value (composite literal) is not a change of a polynomial
+								if a := allocRoot(fa.X, 0); a != nil && namedName(a.Type().(*types.Pointer).Elem()) == "Form" {
+									continue
+								}
+								// a stored constant other than LagrangeCoset cannot produce that form
+								if k, ok := constInt(x.Val); ok {
+									if lc, ok2 := basisConst(p, pk, "LagrangeCoset"); ok2 && k != lc {
+										continue
+									}
+								}
+								makes = true
+							case "coset":
+								setsCoset = true
+							}
+						}
+					case *ssa.Call:
+						cl := calleeOf(&x.Call)
+						if cl.Name == "NewPolynomial" && fn.Name() != "NewPolynomial" && len(x.Call.Args) == 2 {
+							// only a form handed in by the caller (a parameter) may be any of the six forms;
+							// a literal form used for an intermediate value is converted before it is returned
+							for _, par := range fn.Params {
+								if derivedFrom(x.Call.Args[1], par, "") || stripConv(x.Call.Args[1]) == ssa.Value(par) {
+									makes = true
+								}
+							}
+						}
+						if cl.Name == "Set" && len(x.Call.Args) == 2 {
+							if fa, ok := x.Call.Args[0].(*ssa.FieldAddr); ok && fieldName(fa.X.Type(), fa.Field) == "coset" {
+								setsCoset = true
+							}
+						}
+					}
+				}
+			}
+			if !makes {
+				continue
+			}
+			c.Instance("C20.coset", 1)
+			c.Ob("C20.coset", pk, funcKey(fn), "coset-shift-recorded", p.Pos(fn.Pos()), setsCoset, funcKey(fn)+": may produce a polynomial in LagrangeCoset form (it stores the basis / builds it from a caller-chosen form) but never sets its coset field: Evaluate divides its argument by that shift (0 by default)")
+		}
+		// ---- evaluation in Lagrange form treats the points of the domain
+		if fn := p.Func(pk, "polynomial", "evaluate"); fn != nil {
+			for _, cl := range fn.AnonFuncs {
+				var inv []ssa.Instruction
+				for _, b := range cl.Blocks {
+					for _, in := range b.Instrs {
+						if call, ok := in.(*ssa.Call); ok && calleeOf(&call.Call).Name == "BatchInvert" {
+							inv = append(inv, in)
+						}
+					}
+				}
+				if len(inv) == 0 {
+					continue
+				}
+				RequireFactsAtInstr(c, p, "C20.domainpoint", cl, inv, "denominators-inverted", []Req{{"all-non-zero", `^not Element\.IsZero\(make:\[\]Element\[\*\]\)$`}})
+			}
 		}
 		if fn := p.Func(pk, "polynomial", "clone"); fn != nil {
 			c.Instance("C20.alias", 1)
@@ -596,4 +713,18 @@ func derivesFromNormalisedMod(v ssa.Value, depth int) bool {
 		}
 	}
 	return false
+}
+
+// basisConst: value of the named Basis constant of the iop package.
+func basisConst(p *Program, pk, name string) (int64, bool) {
+	pkg := p.ByPath[modPath+"/"+pk]
+	if pkg == nil {
+		return 0, false
+	}
+	k, ok := pkg.Types.Scope().Lookup(name).(*types.Const)
+	if !ok {
+		return 0, false
+	}
+	v, ok2 := constant.Int64Val(k.Val())
+	return v, ok2
 }
